@@ -82,6 +82,10 @@ pub enum Pre {
     Identical,
     /// an existing file of the same length with different content
     Garbage,
+    /// whatever is at the path is removed first
+    Removed,
+    /// an existing unrelated file of this length
+    Other(usize),
 }
 
 impl Pre {
@@ -92,6 +96,8 @@ impl Pre {
             Pre::Longer(_) => "longer",
             Pre::Identical => "identical",
             Pre::Garbage => "garbage",
+            Pre::Removed => "removed",
+            Pre::Other(_) => "other",
         }
     }
 }
@@ -159,9 +165,40 @@ impl PlanSpec {
             close_err: self.close_err,
             fsync_err: self.fsync_err,
             meta_err: self.meta_err,
+            kill_at: None,
         }
     }
 }
+
+/// A file (or directory) that an earlier, unrelated or crashed writer left next to the target.
+/// `name` is a template over `{path}` (the target as given), `{dir}`, `{name}`, `{stem}`, `{pid}`.
+#[derive(Clone, Debug, PartialEq, Eq, Serialize, Deserialize)]
+pub struct Litter {
+    pub name: String,
+    /// bytes beyond the expected length (the debris is longer than what will be written), or
+    /// `None` for a short file
+    pub longer_by: Option<usize>,
+    pub is_dir: bool,
+}
+
+pub const LITTER_NAMES: [&str; 16] = [
+    "{path}.tmp",
+    "{path}.part",
+    "{path}~",
+    "{path}.bak",
+    "{path}.new",
+    "{path}.lock",
+    "{path}.swp",
+    "{path}.partial",
+    "{dir}/{stem}.tmp",
+    "{dir}/.{name}.tmp",
+    "{dir}/.{name}.swp",
+    "{dir}/.fast_qr-{pid}.tmp",
+    "{dir}/.tmp",
+    "{dir}/tmp",
+    "{dir}/.{name}",
+    "{dir}/{name}.tmp~",
+];
 
 #[derive(Clone, Debug, PartialEq, Serialize, Deserialize)]
 pub struct IoOp {
@@ -177,6 +214,14 @@ pub struct IoOp {
     pub pad_to: Option<usize>,
     /// real-kernel fault: RLIMIT_FSIZE (soft) during the call, SIGXFSZ ignored
     pub rlimit: Option<Pos>,
+    /// debris next to the target, created before the call
+    #[serde(default, skip_serializing_if = "Vec::is_empty")]
+    pub litter: Vec<Litter>,
+    /// crash: the call runs in a forked child that is killed right before its k-th tracked system
+    /// call; only what reached the file system survives. No verdict for this call itself - the
+    /// following operations of the run meet what it left behind.
+    #[serde(default, skip_serializing_if = "Option::is_none")]
+    pub crash_at: Option<u32>,
 }
 
 #[derive(Clone, Debug, Serialize, Deserialize)]
@@ -272,6 +317,9 @@ struct Swarm {
     real_kernel: bool,
     rlimit: bool,
     pad: bool,
+    litter: bool,
+    crash: bool,
+    related: bool,
     p_hard: f64,
 }
 
@@ -295,6 +343,9 @@ fn gen_swarm(rng: &mut Rng) -> Swarm {
         real_kernel: b(on),
         rlimit: b(on),
         pad: b(true),
+        litter: b(true),
+        crash: b(on),
+        related: b(true),
         p_hard: *rng.pick(&[0.3, 0.5, 0.8]),
     }
 }
@@ -448,7 +499,7 @@ pub fn gen_run(verif_seed: u64, index: u64) -> IoRun {
     let n_ops = [1usize, 2, 3, 4, 5, 6][rng.weighted(&[3, 3, 3, 1, 1, 1])];
     let n_names = rng.range(1, 3) as usize;
     let names: Vec<String> = (0..n_names).map(|_| NAMES[rng.usize_below(NAMES.len())].to_string()).collect();
-    let mut ops = Vec::new();
+    let mut ops: Vec<IoOp> = Vec::new();
     for _ in 0..n_ops {
         let kind = if rng.chance(3, 5) { Kind::Svg } else { Kind::Png };
         let qr = gen_qr_for_io(&mut rng, kind);
@@ -470,12 +521,14 @@ pub fn gen_run(verif_seed: u64, index: u64) -> IoRun {
             Target::Scratch(rng.pick(&names).clone())
         };
         let pre = if sw.prestate {
-            match rng.weighted(&[40, 15, 25, 10, 10]) {
+            match rng.weighted(&[40, 15, 25, 10, 10, 4, 6]) {
                 0 => Pre::Absent,
                 1 => Pre::Shorter,
                 2 => Pre::Longer(*rng.pick(&[1usize, 17, 4096, 100_000])),
                 3 => Pre::Identical,
-                _ => Pre::Garbage,
+                4 => Pre::Garbage,
+                5 => Pre::Removed,
+                _ => Pre::Other(*rng.pick(&[0usize, 1, 100, 5000, 300_000])),
             }
         } else {
             Pre::Absent
@@ -502,7 +555,7 @@ pub fn gen_run(verif_seed: u64, index: u64) -> IoRun {
         } else {
             None
         };
-        ops.push(IoOp {
+        let mut op = IoOp {
             kind,
             qr,
             setters,
@@ -512,7 +565,101 @@ pub fn gen_run(verif_seed: u64, index: u64) -> IoRun {
             via_convert: rng.chance(1, 2),
             pad_to,
             rlimit,
-        });
+            litter: Vec::new(),
+            crash_at: None,
+        };
+        // related operations: the same export again, or a close relative of an earlier one
+        // (what a watch loop, a batch job or a retry does) - where memos and caches live
+        if sw.related && !ops.is_empty() && rng.chance(2, 5) {
+            let base = ops[rng.usize_below(ops.len())].clone();
+            let fresh = op.clone();
+            op = base;
+            op.crash_at = None;
+            op.plan = fresh.plan.clone();
+            op.rlimit = None;
+            op.pre = match rng.weighted(&[30, 25, 15, 10, 10, 10]) {
+                0 => Pre::Absent,
+                1 => Pre::Garbage,
+                2 => Pre::Longer(*rng.pick(&[1usize, 4096])),
+                3 => Pre::Removed,
+                4 => Pre::Other(*rng.pick(&[0usize, 100, 5000])),
+                _ => Pre::Shorter,
+            };
+            match rng.below(8) {
+                // exactly the same export again
+                0 | 1 | 2 => {}
+                // one option differs
+                3 => {
+                    let is_img = op.kind == Kind::Png;
+                    let extra = if is_img {
+                        match rng.below(3) {
+                            0 => RSetter::FitWidth(*rng.pick(&[33u32, 64, 100, 200, 256])),
+                            1 => RSetter::FitHeight(*rng.pick(&[33u32, 64, 100, 200, 256])),
+                            _ => RSetter::Margin(rng.below(6) as usize),
+                        }
+                    } else {
+                        RSetter::Margin(rng.below(6) as usize)
+                    };
+                    if op.pad_to.is_some() {
+                        // keep the filler last so that padding still works
+                        let at = op.setters.len().saturating_sub(1);
+                        op.setters.insert(at, extra);
+                    } else {
+                        op.setters.push(extra);
+                    }
+                }
+                // other options, same code
+                4 => {
+                    if fresh.kind == op.kind {
+                        op.setters = fresh.setters.clone();
+                        op.pad_to = fresh.pad_to;
+                    }
+                }
+                // other code, same options
+                5 => op.qr = fresh.qr.clone(),
+                // the other renderer onto the same path
+                6 => {
+                    op.kind = fresh.kind;
+                    op.setters = fresh.setters.clone();
+                    op.pad_to = fresh.pad_to;
+                }
+                // same export, other path
+                _ => op.target = fresh.target.clone(),
+            }
+        }
+        if sw.litter && !op.target.kernel_fault() && rng.chance(1, 4) {
+            for _ in 0..rng.range(1, 2) {
+                op.litter.push(Litter {
+                    name: LITTER_NAMES[rng.usize_below(LITTER_NAMES.len())].to_string(),
+                    longer_by: if rng.chance(3, 4) { Some(*rng.pick(&[1usize, 1000, 70_000])) } else { None },
+                    is_dir: rng.chance(1, 8),
+                });
+            }
+        }
+        // crash and restart: this call dies at its k-th system call; a later call writes (usually
+        // something smaller) to the same path and must still end with an exact file or an error
+        if sw.crash && !op.target.kernel_fault() && rng.chance(1, 6) {
+            let mut dying = op.clone();
+            dying.crash_at = Some(match rng.below(3) {
+                0 => rng.below(4) as u32,
+                1 => rng.below(10) as u32,
+                _ => rng.below(40) as u32,
+            });
+            if rng.chance(1, 2) {
+                dying.plan.chunk = Some(ChunkSpec::Parts(*rng.pick(&[2u32, 3, 5, 16])));
+            }
+            if rng.chance(1, 2) && dying.kind == Kind::Svg {
+                // make the dying writer's output the larger one
+                dying.pad_to = Some(*rng.pick(&[20_000usize, 70_000, 140_000]));
+                if !matches!(dying.setters.last(), Some(RSetter::Image(ImageSpec::Filler(_)))) {
+                    dying.setters.push(RSetter::Image(ImageSpec::Filler(0)));
+                }
+            }
+            dying.pre = Pre::Absent;
+            ops.push(dying);
+            op.pre = Pre::Absent;
+        }
+        ops.push(op);
     }
     IoRun {
         index,
@@ -644,6 +791,27 @@ fn dev_full_ok() -> bool {
         Ok(m) => m.file_type().is_char_device() && libc::major(m.rdev()) == 1 && libc::minor(m.rdev()) == 7,
         Err(_) => false,
     }
+}
+
+/// `{path}` the target as given, `{dir}` its directory, `{name}` its file name, `{stem}` the
+/// name without its last extension, `{pid}` this process.
+fn expand_litter(template: &str, path: &str) -> String {
+    let p = Path::new(path);
+    let dir = match p.parent() {
+        Some(d) if !d.as_os_str().is_empty() => d.to_string_lossy().to_string(),
+        _ => ".".to_string(),
+    };
+    let name = p.file_name().map(|n| n.to_string_lossy().to_string()).unwrap_or_default();
+    let stem = p.file_stem().map(|n| n.to_string_lossy().to_string()).unwrap_or_default();
+    if name.is_empty() {
+        return String::new();
+    }
+    template
+        .replace("{path}", path)
+        .replace("{dir}", &dir)
+        .replace("{name}", &name)
+        .replace("{stem}", &stem)
+        .replace("{pid}", &std::process::id().to_string())
 }
 
 fn first_diff(a: &[u8], b: &[u8]) -> usize {
@@ -828,12 +996,17 @@ pub fn exec_op(dir: &Path, idx: usize, op: &IoOp, stats: &mut Stats, pre: Option
                 }
                 Pre::Identical => Some(expected.clone()),
                 Pre::Garbage => Some(expected.iter().map(|b| b ^ 0x55).collect()),
+                Pre::Removed => {
+                    let _ = std::fs::remove_file(&path);
+                    None
+                }
+                Pre::Other(n) => Some((0..*n).map(|i| b"unrelated content\n"[i % 18]).collect()),
             };
             match pre {
                 None => {
                     // "absent" means: whatever an earlier op of this run left there stays
                     // (that is how failed-then-succeeded-on-the-same-path arises)
-                    if existing.is_some() {
+                    if existing.is_some() && op.pre == Pre::Absent {
                         stats.bump("probe:target_left_by_earlier_op", 1);
                     }
                 }
@@ -844,6 +1017,71 @@ pub fn exec_op(dir: &Path, idx: usize, op: &IoOp, stats: &mut Stats, pre: Option
         }
         _ => {}
     }
+    // 3b. debris next to the target (left by a crashed or unrelated writer)
+    for l in &op.litter {
+        if op.target.kernel_fault() {
+            break;
+        }
+        let lp = expand_litter(&l.name, &path);
+        if lp == path || lp.is_empty() {
+            continue;
+        }
+        if l.is_dir {
+            if std::fs::create_dir_all(&lp).is_ok() {
+                stats.bump("pre:litter_dir", 1);
+            }
+        } else {
+            let n = match l.longer_by {
+                Some(k) => expected.len() + k,
+                None => expected.len() / 3,
+            };
+            let junk: Vec<u8> = (0..n).map(|i| b"stale-debris."[i % 13]).collect();
+            if std::fs::metadata(&lp).map(|m| m.is_dir()).unwrap_or(false) {
+                continue;
+            }
+            if std::fs::write(&lp, &junk).is_ok() {
+                stats.bump("pre:litter_file", 1);
+            }
+        }
+    }
+
+    // 3c. crash and restart: the call runs in a forked child that is killed at its k-th system call
+    if let (Some(k), None) = (op.crash_at, pre) {
+        let mut plan = op.plan.resolve(expected.len());
+        plan.kill_at = Some(k);
+        let _ = std::io::Write::flush(&mut std::io::stdout());
+        let pid = unsafe { libc::fork() };
+        if pid == 0 {
+            shim::arm(plan);
+            let _ = catch_unwind(AssertUnwindSafe(|| match op.kind {
+                Kind::Svg => svg_b.as_ref().unwrap().to_file(qr, &path).map_err(|_| ()),
+                Kind::Png => img_b.as_ref().unwrap().to_file(qr, &path).map_err(|_| ()),
+            }));
+            unsafe { libc::_exit(0) }
+        }
+        if pid < 0 {
+            return skip(rep, "fork_failed", stats);
+        }
+        let mut status: libc::c_int = 0;
+        unsafe {
+            libc::waitpid(pid, &mut status, 0);
+        }
+        let code = if libc::WIFEXITED(status) { libc::WEXITSTATUS(status) } else { -1 };
+        if code == 137 {
+            stats.bump("fired:crash_mid_call", 1);
+            stats.tuples.insert(format!("{:?}|crash_at_syscall={}|{}", op.kind, k.min(12), if expected.len() > 65536 { ">64K" } else { "<=64K" }));
+            rep.result = format!("Crashed(at syscall {})", k);
+        } else {
+            stats.bump("note:crash_point_not_reached", 1);
+            rep.result = "CrashPointNotReached".into();
+        }
+        rep.file = match std::fs::metadata(&path) {
+            Ok(m) => format!("left(len={})", m.len()),
+            Err(_) => "left(absent)".into(),
+        };
+        return rep;
+    }
+
     let had_longer = match std::fs::metadata(&path) {
         Ok(m) => m.is_file() && m.len() as usize > expected.len(),
         Err(_) => false,
